@@ -65,6 +65,52 @@ def rand_path(rng):
     return s
 
 
+def call_names(name):
+    """Spellings under which the decoder registered as `name` may write its own call: the registered name, the name
+    without its class prefix (BSC_open -> open), both with and without the _nocancel suffix."""
+    out = []
+    for n in (name, name.split('_', 1)[1] if '_' in name else name):
+        out.append(n)
+        out.append(n[:-9] if n.endswith('_nocancel') else n + '_nocancel')
+    return list(dict.fromkeys(x for x in out if x))
+
+
+SYNTAX = ['(', ')', ', ', '"', '\\', '\\"', "'", '_nocancel', '_nocancel(', '), ', '")', '", ', 'errno: ', ', errno: ENOENT(2)',
+          ', fd: 5', ', count: 5', ' | ', 'O_RDONLY', '0x', '{}', '{0}', '{self.path}', '%s', '%d', '%(path)s', '\n', '\t', '\r',
+          '\x1b[0m', ' ', '#', '/*', '*/']
+
+
+def syntax_paths(rng, name, others=(), full=False):
+    """Path texts that contain the rendering's own syntax: the decoder's call name followed by '(' (and its _nocancel / base
+    spelling, and the names of other decoders), '_nocancel', the separators and quotes of the argument list, the words of the
+    result part, format-string placeholders, control characters; alone, embedded in an ordinary path, doubled, and two of
+    them together; the empty path and very long ones (a chunk boundary every 32 bytes, 10^3 and 10^4 bytes)."""
+    calls = call_names(name)
+    for o in others:
+        calls += call_names(o)[:2]
+    toks = [c + '(' for c in calls] + [c + '("' for c in calls[:2]] + list(calls) + SYNTAX
+    out = ['']
+    for t in toks:
+        out += [t, 'usr/' + t + '/lib', t + t, t + 'x' + t]
+    for _ in range(40 if full else 12):
+        a, b = rng.choice(toks), rng.choice(toks)
+        out.append(rng.choice(['', 'a/', '/']) + a + rng.choice(['', 'b', '/']) + b)
+    first = calls[0] + '('
+    out += ['a' * 23, 'a' * 24, 'a' * 25, 'b' * 56, 'b' * 57, 'c' * 1000, ('d' * 31 + '/') * 320,
+            (first + '"x", ') * 40, ('_nocancel' * 120), 'e' * 24 + first, 'e' * (24 + 32 - 2) + first]
+    return list(dict.fromkeys(out))
+
+
+def syntax_case(rng, name, path, other=None):
+    """A window of `name` whose looked-up paths (and global strings) are the given adversarial text."""
+    c = make_case(rng, name, nlookups=0)
+    c['start'] = [rng.randrange(0, 24) for _ in range(4)]
+    c['end'] = [0, rng.randrange(0, 9), 0, 0] if rng.random() < 0.7 else [rng.randrange(1, 100), 0, 0, 0]
+    c['lookups'] = [[path, rand_word(rng)], [other if other is not None else path, rand_word(rng)]]
+    c['gs'] = {str(a): path for a in c['start']}
+    return c
+
+
 def make_case(rng, name, nlookups=None, err=None):
     """A JSON-able window description for decoder `name`."""
     start = [rand_word(rng) for _ in range(4)]
@@ -114,15 +160,20 @@ def line(c):
         table_str(c['tn'], hs))
 
 
-def run_impl(c, host_patch=None):
-    """str(handler(parser, events)) on the real code."""
+def trace_of(c):
+    """handler(parser, events) on the real code: the decoded trace object of the window."""
     from pykdebugparser.kevent import from_kd_buf
     parser = TracesParser(CODES, {int(k): v for k, v in c['tp'].items()}, {})
     parser.global_strings.update({int(k): v for k, v in c['gs'].items()})
     parser.tids_names.update({int(k): v for k, v in c['tn'].items()})
     events = [from_kd_buf(r) for r in window_events(c)]
     h = parser.handlers[c['name']]
-    t = h(parser, events)
+    return h(parser, events)
+
+
+def run_impl(c, host_patch=None):
+    """str(handler(parser, events)) on the real code."""
+    t = trace_of(c)
     first = str(t)
     again = str(t)
     if first != again:                                 # a decoded trace is a value: it reads the same every time
@@ -142,10 +193,18 @@ def supported_names():
     return [n for n in all_handler_names() if n not in st['unsupported']]
 
 
-def section_decoders(rep, rng, tier, per=None, names=None, oracle_fn=None, name='decoders'):
+def section_decoders(rep, rng, tier, per=None, names=None, oracle_fn=None, name='decoders', syntax=0):
+    """syntax = k > 0: k further windows per decoder whose paths / global strings contain the rendering's own syntax
+    (syntax_paths)."""
     names = supported_names() if names is None else names
     per = per or (4 if tier == 'quick' else 60)
     cases = [make_case(rng, n) for n in names for _ in range(per)]
+    if syntax:
+        every = all_handler_names()
+        for n in names:
+            paths = syntax_paths(rng, n, rng.sample(every, 2))
+            for pth in (paths if syntax >= len(paths) else rng.sample(paths, syntax)):
+                cases.append(syntax_case(rng, n, pth, rng.choice(paths)))
     inner_oracle = oracle_fn
 
     def oracle_fn(c, got):
@@ -161,8 +220,11 @@ def section_decoders(rep, rng, tier, per=None, names=None, oracle_fn=None, name=
         rule='every translated decoder (%d) x %d windows: START/END words from boundary values, small ints, random 16/32/64-bit '
              'words; error word 0 / errno / arbitrary; 0-6 kernel-encoded lookups; random global strings; the Lean `IR.render` '
              'of the generated IR vs str(handler(parser, events)) of the real code; non-trivial = rendered without exception'
-             % (len(names), per),
-        sample_fn=lambda c: {'decoder': c['name'], 'start': c['start'], 'end': c['end'], 'lookups': c['lookups'][:2]})
+             % (len(names), per)
+             + ('; plus %d windows per decoder whose looked-up paths and global strings contain the rendering\'s own syntax '
+                '(own call name + "(", other decoders\' names, _nocancel, quotes, separators, result words, placeholders, '
+                'control characters, empty and very long paths)' % syntax if syntax else ''),
+        sample_fn=lambda c: {'decoder': c['name'], 'start': c['start'], 'end': c['end'], 'lookups': [[p[:80], v] for p, v in c['lookups'][:2]]})
     st = stats()
     rep.notes.append('translator: %d of %d registered handlers compiled to IR (%d with name(p0, ...) shape); hand-modelled: %s'
                      % (st['supported'], st['total'], st.get('shaped', 0), sorted(st['unsupported'])))
